@@ -281,8 +281,83 @@ func (m *Machine) store(p value, v value) {
 	panic(fmt.Sprintf("store to %T", p))
 }
 
+// mapIte pushes a function of a constant through an ite-tree whose leaves are
+// constants: f(ite(c,a,b)) = ite(c,f(a),f(b)).  ok=false if t is not such a tree.
+func (m *Machine) mapIte(t *smt.Term, f func(v uint64) *smt.Term, memo map[int]*smt.Term, budget *int) (*smt.Term, bool) {
+	if t.IsConst() {
+		return f(t.V), true
+	}
+	if r, ok := memo[t.ID]; ok {
+		return r, r != nil
+	}
+	*budget--
+	if *budget < 0 {
+		return nil, false
+	}
+	var res *smt.Term
+	switch t.Op {
+	case smt.OIte:
+		a, ok1 := m.mapIte(t.Args[1], f, memo, budget)
+		if ok1 {
+			b, ok2 := m.mapIte(t.Args[2], f, memo, budget)
+			if ok2 {
+				res = m.c.Ite(t.Args[0], a, b)
+			}
+		}
+	case smt.OZeroExt:
+		res, _ = m.mapIte(t.Args[0], f, memo, budget)
+	}
+	memo[t.ID] = res
+	return res, res != nil
+}
+
+// iteLeafMax returns the maximal constant leaf of an ite-tree (ok=false if not a tree of constants).
+func (m *Machine) iteLeafMax(t *smt.Term) (uint64, bool) {
+	budget := 2048
+	max := uint64(0)
+	_, ok := m.mapIte(t, func(v uint64) *smt.Term {
+		if v > max {
+			max = v
+		}
+		return m.c.True
+	}, map[int]*smt.Term{}, &budget)
+	return max, ok
+}
+
 func (p *elemPtr) load() value {
 	c := p.m.c
+	// constant table indexed by an ite-tree of constants: push the lookup to the leaves
+	if p.idx.Op == smt.OIte || p.idx.Op == smt.OZeroExt {
+		allConst := true
+		var sort smt.Sort
+		for _, e := range p.elems {
+			t, ok := e.(*smt.Term)
+			if !ok || !t.IsConst() {
+				allConst = false
+				break
+			}
+			sort = t.S
+		}
+		if allConst {
+			budget := 2048
+			oob := false
+			r, ok := p.m.mapIte(p.idx, func(v uint64) *smt.Term {
+				if v >= uint64(len(p.elems)) {
+					oob = true
+					return c.BVConst(sort.W, 0)
+				}
+				return p.elems[v].(*smt.Term)
+			}, map[int]*smt.Term{}, &budget)
+			if ok && !oob {
+				return r
+			}
+		}
+	}
+	if len(p.elems) >= 16 {
+		if r := p.loadConstTable(); r != nil {
+			return r
+		}
+	}
 	var r *smt.Term
 	for i := len(p.elems) - 1; i >= 0; i-- {
 		e, ok := p.elems[i].(*smt.Term)
@@ -296,6 +371,66 @@ func (p *elemPtr) load() value {
 		r = c.Ite(c.Eq(p.idx, c.BVConst(64, uint64(i))), e, r)
 	}
 	return r
+}
+
+// loadConstTable: a table of BV constants read at a symbolic index is encoded
+// as an ite over maximal runs that are constant or have slope 1 (e.g. the hex
+// digit tables), instead of one ite per entry.
+func (p *elemPtr) loadConstTable() *smt.Term {
+	c := p.m.c
+	n := len(p.elems)
+	vals := make([]uint64, n)
+	w := 0
+	for i, e := range p.elems {
+		t, ok := e.(*smt.Term)
+		if !ok || !t.IsConst() || t.S.K != smt.KBV || t.S.W > 64 {
+			return nil
+		}
+		vals[i] = t.V
+		w = t.S.W
+	}
+	type run struct {
+		start, end int
+		slope      uint64
+	}
+	var runs []run
+	for i := 0; i < n; {
+		j := i + 1
+		slope := uint64(0)
+		if j < n {
+			d := (vals[j] - vals[i]) & smt.MaskW(w)
+			if d == 0 || d == 1 {
+				slope = d
+				for j < n && (vals[j]-vals[j-1])&smt.MaskW(w) == slope {
+					j++
+				}
+			}
+		}
+		runs = append(runs, run{i, j - 1, slope})
+		i = j
+	}
+	if len(runs) > n/2 {
+		return nil
+	}
+	var idxw *smt.Term
+	if w <= 64 {
+		if w == 64 {
+			idxw = p.idx
+		} else {
+			idxw = c.Extract(w-1, 0, p.idx)
+		}
+	}
+	expr := func(r run) *smt.Term {
+		if r.slope == 0 || r.start == r.end {
+			return c.BVConst(w, vals[r.start])
+		}
+		return c.BvBin(smt.OBvAdd, idxw, c.BVConst(w, vals[r.start]-uint64(r.start)))
+	}
+	res := expr(runs[len(runs)-1])
+	for k := len(runs) - 2; k >= 0; k-- {
+		res = c.Ite(c.BvCmp(smt.OBvUle, p.idx, c.BVConst(64, uint64(runs[k].end))), expr(runs[k]), res)
+	}
+	return res
 }
 
 func (p *elemPtr) store(v value) {
